@@ -1,12 +1,13 @@
 import PprofVerif.Model.LegacyCount
 import PprofVerif.Model.LegacyContention
-import PprofVerif.Model.LegacyJava
+import PprofVerif.Model.LegacyJavaCpu
 /-!
-# C14 — legacy profile formats: the dispatch of `parseLegacy`
+# C14 — legacy profile formats: the dispatch of `parseLegacy` and `ParseData`
 
 The per-format documents, printers, documented meanings (`expectedX`) and parsers live in
-`LegacyCount`, `LegacyHeap`, `LegacyContention`, `LegacyThread`, `LegacyCpu`, `LegacyJava`
-(shared text machinery in `LegacyBase`, memory maps and final assembly in `LegacyMap`).
+`LegacyCount`, `LegacyHeap`, `LegacyContention`, `LegacyThread`, `LegacyCpu`, `LegacyJava`,
+`LegacyJavaCpu` (shared text machinery in `LegacyBase`, memory maps and final assembly in
+`LegacyMap`).
 -/
 namespace PV.Legacy
 open PV
@@ -25,11 +26,36 @@ def parseLegacy (scale : ScaleFn) (cyc : CycFn) (b : Str) : Outcome Profile :=
   orElse (parseContention cyc b) fun _ =>
   parseJavaProfile scale b
 
+/-- none of the three (unanchored) header regexps of `parseHeap` matches anywhere in the line. -/
+def noHeapHeader (l : Str) : Bool :=
+  (searchRe matchHeapHeaderAt l).isNone && (searchRe (matchOtherHeaderAt (asc "growth")) l).isNone &&
+  (searchRe (matchOtherHeaderAt (asc "fragmentation")) l).isNone
+
+/-- A threadz document that starts directly with a thread header (no comment lines, no
+`--- threadz N ---` line): that first line — which carries the free-text thread name — must not
+also read as a heap profile header, or `parseHeap`, tried before `parseThread`, claims the
+document.  (Every other first line of a threadz document provably is not a heap header.) -/
+def ThreadDoc.chainOK (d : ThreadDoc) : Bool :=
+  match d.pre, d.head, d.recs with
+  | [], none, r :: _ => noHeapHeader r.headerLine
+  | _, _, _ => true
+
+/-- the two errors of `ParseUncompressed` after which `ParseData` does NOT try the legacy
+parsers (`errNoData`, `errConcatProfile`; the strings are those of `Model/Codec`). -/
+def errNoData : String := "empty input file"
+def errConcatProfile : String := "concatenated profiles detected"
+
 /-- `ParseData` after decompression: the protobuf decoder is tried first (parameter `pb`: the
-decoder is the subject of C01/C02, `Model/Codec`), the legacy parsers only when it fails. -/
+decoder is the subject of C01/C02; `Lemmas/LegacyPb` instantiates it with
+`Codec.parseUncompressed`), the legacy parsers only when it fails with an error other than
+`errNoData` / `errConcatProfile`; a panic of the decoder is a panic of `ParseData`. -/
 def parseData (pb : Str → Outcome Profile) (scale : ScaleFn) (cyc : CycFn) (b : Str) : Outcome Profile :=
   match pb b with
   | .ok p => .ok p
-  | _ => parseLegacy scale cyc b
+  | .panic s => .panic s
+  | .err e => if e == errNoData || e == errConcatProfile then .err e else parseLegacy scale cyc b
+
+/-- the decoder's answer sends `ParseData` on to the legacy parsers. -/
+def PbRejects (r : Outcome Profile) : Prop := ∃ e, r = .err e ∧ e ≠ errNoData ∧ e ≠ errConcatProfile
 
 end PV.Legacy
